@@ -2038,6 +2038,8 @@ thread_main_handle_connection (void *data)
       was_suspended = true;
       if (! use_poll)
       {
+        struct timeval tv;
+
         FD_ZERO (&rs);
         if (! MHD_add_to_fd_set_ (MHD_itc_r_fd_ (daemon->itc),
                                   &rs,
@@ -2050,11 +2052,17 @@ thread_main_handle_connection (void *data)
   #endif
           goto exit;
         }
+        /* The ITC is shared with the daemon thread and with the threads of
+         * the other suspended connections: the signal may be consumed before
+         * this thread looks at it.  Use a bounded wait so that a missed
+         * wake-up (resume or shutdown) only delays this thread. */
+        tv.tv_sec = 0;
+        tv.tv_usec = 250 * 1000;
         if (0 > MHD_SYS_select_ (MHD_itc_r_fd_ (daemon->itc) + 1,
                                  &rs,
                                  NULL,
                                  NULL,
-                                 NULL))
+                                 &tv))
         {
           const int err = MHD_socket_get_error_ ();
 
@@ -2075,9 +2083,10 @@ thread_main_handle_connection (void *data)
         p[0].events = POLLIN;
         p[0].fd = MHD_itc_r_fd_ (daemon->itc);
         p[0].revents = 0;
+        /* Bounded wait, see the comment at select() above. */
         if (0 > MHD_sys_poll_ (p,
                                1,
-                               -1))
+                               250))
         {
           if (MHD_SCKT_LAST_ERR_IS_ (MHD_SCKT_EINTR_))
             continue;
@@ -2090,7 +2099,9 @@ thread_main_handle_connection (void *data)
         }
       }
 #endif /* HAVE_POLL */
-      MHD_itc_clear_ (daemon->itc);
+      /* Do not clear the ITC here: it belongs to the daemon thread, which
+       * would otherwise miss "resume", "new connection" and "shutdown"
+       * signals consumed by this thread. */
       continue; /* Check again for resume. */
     }           /* End of "suspended" branch. */
 
